@@ -191,6 +191,8 @@ def run(spec: Spec, tier: str) -> int:
         violations = []
         k2r = None
         probes = {}
+        excess_hits = {}
+        dis = []
         try:
             if model_ok:
                 k2r = k2.compare(spec.prop, [j for j in jobs if j["fmt"] == spec.formats[0]])
@@ -244,10 +246,26 @@ def run(spec: Spec, tier: str) -> int:
             broken.append(Broken("correspondence", "oracle evaluation (sem/Diff.v on real bodies)", str(e)[-1500:]))
         stats["oracle_s"] = round(time.time() - t2, 1)
 
+        # K2 disagreements: look for a state on which the REAL output is wrong while the model (known defects included) is not
+        excess_hits = {}
+        xs = [(jid, 0 if spec.fresh_counter else (k2r.results[jid].get("hpre") or 0), k2r.results[jid]["ast"], k2r.bodies[jid])
+              for jid in dis if k2r.statuses.get(jid) in (2, 3, 4) and jid in k2r.bodies and "ast" in k2r.results.get(jid, {})][:40]
+        if xs and model_ok:
+            try:
+                excess_hits = diffrun.excess(spec.prop, xs)
+            except Exception as e:
+                broken.append(Broken("correspondence", "excess oracle on K2-disagreeing programs", str(e)[-800:]))
+        stats["k2_disagreeing_programs_with_a_wrong_state"] = len(excess_hits)
+
     # ---- verdict -----------------------------------------------------------------------------
     in_guard = defined = 0
     klass = {}
     fails = []
+    for jid, (sd, kind) in list(excess_hits.items())[:3]:
+        code = allp[int(jid.split(":")[1])]
+        if code not in known_codes:
+            fails.append((jid, code, ["diff (the real output is wrong on a state on which the model of the current tree is right; K2 disagrees on this program)"],
+                          {"flags": 0, "bad": (sd, kind)}))
     for jid, v in probes.items():
         fmt, i = jid.split(":")
         code = allp[int(i)]
